@@ -236,6 +236,26 @@ fn queries(o: &Object, spec: &Spec, keys: &[String], out: &mut Out) -> String {
         let u = match o.get_unique(ks) { Ok(None) => 0, Ok(Some(v)) => { if p.len() == 1 && *v == spec[p[0]].1 { 1 } else { 99 } } Err(d) => { if p.len() >= 2 && d.0.value == spec[p[0]].1 && d.1.value == spec[p[1]].1 { 2 } else { 99 } } };
         let ue = match o.get_unique_entry(ks) { Ok(None) => 0, Ok(Some(_)) => 1, Err(_) => 2 };
         out.oracle(u == p.len().min(2) && ue == p.len().min(2), "unique lookups = linear scan", || format!("key {:?}: {} matches", ks, p.len()));
+        // the mutable twins see the same entries
+        {
+            let mut oc = o.clone();
+            let um = match oc.get_unique_mut(ks) { Ok(None) => 0, Ok(Some(v)) => { if p.len() == 1 && *v == spec[p[0]].1 { 1 } else { 99 } } Err(_) => 2 };
+            let gm: Vec<Value> = oc.get_mut(ks).map(|v| v.clone()).collect();
+            out.oracle(um == p.len().min(2) && gm.iter().eq(p.iter().map(|&i| &spec[i].1)), "get_unique_mut / get_mut = linear scan", || format!("key {:?}: get_unique_mut class {} for {} matches", ks, um, p.len()));
+        }
+    }
+    // whole-object iteration through every entry point yields the entries in order
+    {
+        let want: Vec<(&str, &Value)> = spec.iter().map(|(k, v)| (k.as_str(), v)).collect();
+        let a: Vec<(&str, &Value)> = o.iter().map(|e| (e.key.as_str(), &e.value)).collect();
+        let b: Vec<(&str, &Value)> = o.into_iter().map(|e| (e.key.as_str(), &e.value)).collect();
+        let c: Vec<(String, Value)> = o.clone().into_iter().map(|e| (e.key.to_string(), e.value)).collect();
+        let mut om = o.clone();
+        let d: Vec<(String, Value)> = (&mut om).into_iter().map(|(k, v)| (k.to_string(), v.clone())).collect();
+        let owned: Vec<(String, Value)> = want.iter().map(|(k, v)| (k.to_string(), (*v).clone())).collect();
+        out.oracle(a == want && b == want && c == owned && d == owned, "iter / IntoIterator for &Object, Object, &mut Object yield the entries in order", || format!("{} entries", want.len()));
+        let laws = iter_laws(|| o.iter().map(|e| (e.key.as_str(), &e.value)));
+        out.oracle(laws.is_ok(), "Object::iter obeys the Iterator laws", || laws.clone().unwrap_err());
     }
     parts.join(",")
 }
